@@ -8,32 +8,45 @@ EXTENDS Integers, Sequences
 LBase == 32768
 NL == 6
 
-LZero == [i \in 1..NL |-> 0]
+LZero == <<0, 0, 0, 0, 0, 0>>
 IsLimbs(a) == /\ Len(a) = NL /\ \A i \in 1..NL : a[i] \in 0..(LBase - 1)
 
 (* small naturals (< 2^30) to limbs *)
 LOf(n) == [i \in 1..NL |-> IF i = 1 THEN n % LBase ELSE IF i = 2 THEN (n \div LBase) % LBase ELSE 0]
 
-RECURSIVE LAddC(_, _, _, _)
-LAddC(a, b, i, c) == IF i > NL THEN <<>>
-                     ELSE LET s == a[i] + b[i] + c IN <<s % LBase>> \o LAddC(a, b, i + 1, s \div LBase)
-LAdd(a, b) == LAddC(a, b, 1, 0)
+(* addition and subtraction are written out limb by limb (NL = 6): the carries are *)
+(* LET definitions, which TLC evaluates once.                                      *)
+LAdd(a, b) ==
+  LET s1 == a[1] + b[1]
+      s2 == a[2] + b[2] + (s1 \div LBase)
+      s3 == a[3] + b[3] + (s2 \div LBase)
+      s4 == a[4] + b[4] + (s3 \div LBase)
+      s5 == a[5] + b[5] + (s4 \div LBase)
+      s6 == a[6] + b[6] + (s5 \div LBase)
+  IN <<s1 % LBase, s2 % LBase, s3 % LBase, s4 % LBase, s5 % LBase, s6 % LBase>>
 
 (* comparison from the most significant limb: -1, 0, 1 *)
-RECURSIVE LCmpI(_, _, _)
-LCmpI(a, b, i) == IF i = 0 THEN 0
-                  ELSE IF a[i] < b[i] THEN -1 ELSE IF a[i] > b[i] THEN 1 ELSE LCmpI(a, b, i - 1)
-LCmp(a, b) == LCmpI(a, b, NL)
+LCmp(a, b) ==
+  IF a[6] # b[6] THEN (IF a[6] < b[6] THEN -1 ELSE 1)
+  ELSE IF a[5] # b[5] THEN (IF a[5] < b[5] THEN -1 ELSE 1)
+  ELSE IF a[4] # b[4] THEN (IF a[4] < b[4] THEN -1 ELSE 1)
+  ELSE IF a[3] # b[3] THEN (IF a[3] < b[3] THEN -1 ELSE 1)
+  ELSE IF a[2] # b[2] THEN (IF a[2] < b[2] THEN -1 ELSE 1)
+  ELSE IF a[1] # b[1] THEN (IF a[1] < b[1] THEN -1 ELSE 1)
+  ELSE 0
 LLeq(a, b) == LCmp(a, b) <= 0
 LLt(a, b) == LCmp(a, b) < 0
 
 (* a - b for a >= b *)
-RECURSIVE LSubB(_, _, _, _)
-LSubB(a, b, i, br) == IF i > NL THEN <<>>
-                      ELSE LET d == a[i] - b[i] - br IN
-                           IF d < 0 THEN <<d + LBase>> \o LSubB(a, b, i + 1, 1)
-                                    ELSE <<d>> \o LSubB(a, b, i + 1, 0)
-LSub(a, b) == LSubB(a, b, 1, 0)
+LSub(a, b) ==
+  LET d1 == a[1] - b[1]
+      d2 == a[2] - b[2] - (IF d1 < 0 THEN 1 ELSE 0)
+      d3 == a[3] - b[3] - (IF d2 < 0 THEN 1 ELSE 0)
+      d4 == a[4] - b[4] - (IF d3 < 0 THEN 1 ELSE 0)
+      d5 == a[5] - b[5] - (IF d4 < 0 THEN 1 ELSE 0)
+      d6 == a[6] - b[6] - (IF d5 < 0 THEN 1 ELSE 0)
+      N(d) == IF d < 0 THEN d + LBase ELSE d
+  IN <<N(d1), N(d2), N(d3), N(d4), N(d5), N(d6)>>
 
 RECURSIVE LSumSeq(_, _)
 LSumSeq(s, i) == IF i > Len(s) THEN LZero ELSE LAdd(s[i], LSumSeq(s, i + 1))
